@@ -10,6 +10,9 @@ CONSTANTS
   GasPrices <- TDummy
   Values <- TDummy
   NonceDeltas <- TDummy
+  SDOV = "SDO"
+  SDSV = "SDS"
+  InnerAmt = 1000
   Intrinsic = 21000
   InitBal <- TBal
   InitNonce <- TNonce
